@@ -189,6 +189,9 @@ type caseJS struct {
 
 var c *hx.Ctx
 
+// reused is a long-lived encode buffer (dirty spare capacity between cases).
+var reused bin.Buffer
+
 func coqVals(vs []val) string {
 	s := make([]string, len(vs))
 	for i, v := range vs {
@@ -292,6 +295,37 @@ func encodeCase(why string, vals []val, trail []byte, emit bool) []byte {
 	for i, n := range each {
 		if n%4 != 0 {
 			c.Violate("unaligned-encoding", fmt.Sprintf("%s value encodes to %d bytes (not a multiple of 4)", kindName[vals[i].K], n), sh, ix, js)
+		}
+	}
+	// dirty buffers: the same values put into a long-lived buffer after Reset() (its spare
+	// capacity holds garbage from earlier cases) and after an unrelated prefix must produce
+	// exactly the fresh encoding
+	if len(enc) <= 1<<16 {
+		reused.Reset()
+		pd, _ := hx.Recover(func() {
+			for _, v := range vals {
+				put(&reused, v)
+			}
+		})
+		prefix := []byte{0xfe, 0xfd, 0xfc}
+		pre := bin.Buffer{Buf: append(make([]byte, 0, len(enc)+8), prefix...)}
+		for i := len(prefix); i < cap(pre.Buf); i++ {
+			pre.Buf = pre.Buf[:i+1]
+			pre.Buf[i] = 0xa5
+		}
+		pre.Buf = pre.Buf[:len(prefix)]
+		pp, _ := hx.Recover(func() {
+			for _, v := range vals {
+				put(&pre, v)
+			}
+		})
+		if pd || pp || !bytes.Equal(reused.Buf, enc) || !bytes.Equal(pre.Buf[:min(len(prefix), len(pre.Buf))], prefix) || !bytes.Equal(pre.Buf[min(len(prefix), len(pre.Buf)):], enc) {
+			c.Violate("dirty-buffer-encoding-differs", fmt.Sprintf("encoding %s into a reused buffer (after Reset, or after a prefix with dirty spare capacity) differs from the fresh encoding", describe(vals)), sh, ix, js)
+		}
+		// poison the spare capacity for the next case
+		full := reused.Buf[:cap(reused.Buf)]
+		for i := range full {
+			full[i] = 0x5a
 		}
 	}
 	kinds := make([]int, len(vals))
@@ -504,6 +538,24 @@ func main() {
 				m[p] ^= byte(1 << r.Intn(8))
 			}
 			decodeCase("mutated", kinds, vals[0].Str, m, false, true)
+		}
+	}
+	// dirty receivers: Int128/Int256.Decode into previously used values
+	{
+		var a, fa bin.Int128
+		var b2, fb bin.Int256
+		for i := 0; i < 40; i++ {
+			c.Obs.Evaluations++
+			in := r.Bytes(r.Intn(48))
+			fa, fb = bin.Int128{}, bin.Int256{}
+			e1 := a.Decode(&bin.Buffer{Buf: append([]byte{}, in...)})
+			e2 := fa.Decode(&bin.Buffer{Buf: append([]byte{}, in...)})
+			e3 := b2.Decode(&bin.Buffer{Buf: append([]byte{}, in...)})
+			e4 := fb.Decode(&bin.Buffer{Buf: append([]byte{}, in...)})
+			c.Count("dirty-receiver:int128/int256")
+			if (e1 == nil) != (e2 == nil) || (e3 == nil) != (e4 == nil) || (e1 == nil && a != fa) || (e3 == nil && b2 != fb) {
+				c.Violate("dirty-receiver-differs", fmt.Sprintf("Int128/Int256.Decode of %s into a used value differs from a fresh value", short(in)), -1, 0, caseJS{Mode: 0, Kinds: []int{kInt128}, Input: in, Why: "dirty-receiver"})
+			}
 		}
 	}
 	// (4) arbitrary bytes as each primitive
